@@ -47,6 +47,13 @@ impl AccessStructure {
     /// Only refreshed keys can decrypt for an access policy belonging to the
     /// semantic space of the new dimension.
     pub fn add_anarchy(&mut self, dimension: String) -> Result<(), Error> {
+        #[cfg(cosmian_cover_crypt_verif)]
+        if crate::verif_emit::active() {
+            let d = dimension.clone();
+            let r = crate::verif_emit::guard(|| self.add_anarchy(dimension));
+            crate::verif_emit::emit(serde_json::json!({"op": "add_dim", "d": d, "kind": "A", "res": crate::verif_emit::res(&r), "st": self.verif_view()}));
+            return r;
+        }
         match self.dimensions.entry(dimension) {
             Entry::Occupied(e) => Err(Error::ExistingDimension(e.key().to_string())),
             Entry::Vacant(e) => {
@@ -64,6 +71,13 @@ impl AccessStructure {
     /// Only refreshed keys can decrypt for an access policy belonging to the
     /// semantic space of the new dimension.
     pub fn add_hierarchy(&mut self, dimension: String) -> Result<(), Error> {
+        #[cfg(cosmian_cover_crypt_verif)]
+        if crate::verif_emit::active() {
+            let d = dimension.clone();
+            let r = crate::verif_emit::guard(|| self.add_hierarchy(dimension));
+            crate::verif_emit::emit(serde_json::json!({"op": "add_dim", "d": d, "kind": "H", "res": crate::verif_emit::res(&r), "st": self.verif_view()}));
+            return r;
+        }
         match self.dimensions.entry(dimension) {
             Entry::Occupied(e) => Err(Error::ExistingDimension(e.key().to_string())),
             Entry::Vacant(e) => {
@@ -81,6 +95,12 @@ impl AccessStructure {
     /// Refreshed keys loose the ability to decrypt for an access policy
     /// belonging to the semantic space of the removed dimension.
     pub fn del_dimension(&mut self, dimension: &str) -> Result<(), Error> {
+        #[cfg(cosmian_cover_crypt_verif)]
+        if crate::verif_emit::active() {
+            let r = crate::verif_emit::guard(|| self.del_dimension(dimension));
+            crate::verif_emit::emit(serde_json::json!({"op": "del_dim", "d": dimension, "res": crate::verif_emit::res(&r), "st": self.verif_view()}));
+            return r;
+        }
         self.dimensions
             .remove(dimension)
             .map(|_| ())
@@ -110,6 +130,18 @@ impl AccessStructure {
         encryption_hint: EncryptionHint,
         after: Option<&str>,
     ) -> Result<(), Error> {
+        #[cfg(cosmian_cover_crypt_verif)]
+        if crate::verif_emit::active() {
+            let (d, n) = (attribute.dimension.clone(), attribute.name.clone());
+            let r = crate::verif_emit::guard(|| self.add_attribute(attribute, encryption_hint, after));
+            let mut ev = serde_json::json!({"op": "add_attr", "d": d, "n": n, "hint": encryption_hint == EncryptionHint::Hybridized,
+                                            "res": crate::verif_emit::res(&r), "st": self.verif_view()});
+            if let Some(after) = after {
+                ev["after"] = serde_json::json!(after);
+            }
+            crate::verif_emit::emit(ev);
+            return r;
+        }
         let cnt = self
             .dimensions
             .values()
@@ -131,6 +163,12 @@ impl AccessStructure {
     /// Only refreshed keys loose the ability to decrypt for an access policy belonging to the
     /// semantic space of this attribute.
     pub fn del_attribute(&mut self, attr: &QualifiedAttribute) -> Result<(), Error> {
+        #[cfg(cosmian_cover_crypt_verif)]
+        if crate::verif_emit::active() {
+            let r = crate::verif_emit::guard(|| self.del_attribute(attr));
+            crate::verif_emit::emit(serde_json::json!({"op": "del_attr", "d": attr.dimension, "n": attr.name, "res": crate::verif_emit::res(&r), "st": self.verif_view()}));
+            return r;
+        }
         if let Some(dim) = self.dimensions.get_mut(&attr.dimension) {
             dim.remove_attribute(&attr.name)
         } else {
@@ -146,6 +184,13 @@ impl AccessStructure {
         attribute: &QualifiedAttribute,
         new_name: String,
     ) -> Result<(), Error> {
+        #[cfg(cosmian_cover_crypt_verif)]
+        if crate::verif_emit::active() {
+            let to = new_name.clone();
+            let r = crate::verif_emit::guard(|| self.rename_attribute(attribute, new_name));
+            crate::verif_emit::emit(serde_json::json!({"op": "rename", "d": attribute.dimension, "n": attribute.name, "to": to, "res": crate::verif_emit::res(&r), "st": self.verif_view()}));
+            return r;
+        }
         match self.dimensions.get_mut(&attribute.dimension) {
             Some(d) => d.rename_attribute(&attribute.name, new_name),
             None => Err(Error::DimensionNotFound(attribute.dimension.to_string())),
@@ -167,6 +212,12 @@ impl AccessStructure {
     /// The corresponding attribute key will be removed from the public key.
     /// But the decryption key will be kept to allow reading old ciphertext.
     pub fn disable_attribute(&mut self, attr: &QualifiedAttribute) -> Result<(), Error> {
+        #[cfg(cosmian_cover_crypt_verif)]
+        if crate::verif_emit::active() {
+            let r = crate::verif_emit::guard(|| self.disable_attribute(attr));
+            crate::verif_emit::emit(serde_json::json!({"op": "disable", "d": attr.dimension, "n": attr.name, "res": crate::verif_emit::res(&r), "st": self.verif_view()}));
+            return r;
+        }
         match self.dimensions.get_mut(&attr.dimension) {
             Some(d) => d.disable_attribute(&attr.name),
             None => Err(Error::DimensionNotFound(attr.dimension.to_string())),
